@@ -160,6 +160,78 @@ fn replay_algebra<P: PType>(rp: &Value) -> Option<Vec<crate::viol::Viol>> {
     Some(crate::algebra::replay_pair::<P>(gk_from(&rp["extra"]["a"]), gk_from(&rp["extra"]["b"])))
 }
 
+/// fixed histories over the chain of ALL prefix lengths 0..=width of one address (paths of
+/// width+1 nodes): every build order / removal pattern below, T0 on every step, observers at the end
+fn chain_histories(uni: &Universe) -> Vec<(String, Vec<Op>)> {
+    use crate::ops::K;
+    let n = uni.keys.len() as u8;
+    let ins = |k: u8| Op { kind: K::Insert, key: k, rep: k % 2, arg: 0 };
+    let rkt = |k: u8| Op { kind: K::RemoveKeepTree, key: k, rep: 0, arg: 0 };
+    let rem = |k: u8| Op { kind: K::Remove, key: k, rep: (k + 1) % 2, arg: 0 };
+    let asc: Vec<Op> = (0..n).map(ins).collect();
+    let desc: Vec<Op> = (0..n).rev().map(ins).collect();
+    let mut v: Vec<(String, Vec<Op>)> = vec![("ascending".into(), asc.clone()), ("descending".into(), desc.clone())];
+    let mut h = asc.clone();
+    h.extend((0..n).filter(|k| k % 2 == 0).map(rkt));
+    v.push(("ascending, then remove_keep_tree of every even length".into(), h));
+    let mut h = asc.clone();
+    h.extend((0..n - 1).map(rkt));
+    v.push(("ascending, then remove_keep_tree of everything but the full-length prefix".into(), h));
+    let mut h = desc.clone();
+    h.extend((1..n).map(rkt));
+    v.push(("descending, then remove_keep_tree of everything but the zero-length prefix".into(), h));
+    let mut h = desc.clone();
+    h.extend((0..n).filter(|k| k % 2 == 1).map(rem));
+    v.push(("descending, then remove of every odd length".into(), h));
+    let mut h = asc.clone();
+    h.extend((0..n).rev().map(rem));
+    v.push(("ascending, then remove of everything, longest first".into(), h));
+    v.push(("only the zero-length and the full-length prefix".into(), vec![ins(n - 1), ins(0)]));
+    v.push(("only the full-length prefix".into(), vec![ins(n - 1)]));
+    v.push(("the two longest".into(), vec![ins(n - 2), ins(n - 1)]));
+    let mut h: Vec<Op> = (0..n).map(|k| Op { kind: K::EntryOrInsert, key: k, rep: 1, arg: 0 }).collect();
+    h.push(Op { kind: K::Retain, key: 0, rep: 0, arg: 0 });
+    v.push(("entry API ascending, then retain nothing".into(), h));
+    v
+}
+
+fn histories_typed<P: PType>(spec: &Value) -> Value {
+    let t0 = std::time::Instant::now();
+    let uni = uni_of::<P>(spec);
+    let names: Vec<String> = spec.get("observers").and_then(|x| x.as_array()).map(|a| a.iter().filter_map(|x| x.as_str().map(|s| s.to_string())).collect()).unwrap_or_default();
+    let observers = crate::registry::map_observers::<P>(&names);
+    let hs = chain_histories(&uni);
+    let (mut transitions, mut evals) = (0u64, 0u64);
+    let mut found: Vec<Value> = vec![];
+    let mut seen = std::collections::HashSet::new();
+    for (label, h) in &hs {
+        let (vs, t, e) = crate::registry::run_history_checked::<PrefixMap<P, u32>>(&uni, h, &observers, 0);
+        transitions += t;
+        evals += e;
+        for (v, upto, at) in vs {
+            if seen.insert((v.prop, v.site.clone(), v.cond.clone())) {
+                found.push(json!({"property": v.prop, "site": v.site, "cond": v.cond, "detail": format!("[{label}] {}", v.detail), "at": at, "occurrences": 1, "history": ops_json(&h[..upto], &uni)}));
+            }
+        }
+    }
+    json!({
+        "spec": spec, "engine": "histories", "run": format!("histories map {} {}", P::NAME, uni.name),
+        "states": hs.len(), "shape_states": hs.len(), "transitions": transitions, "observer_evals": evals, "distinct_outcomes": hs.len(),
+        "exhaustive": true, "wall_s": t0.elapsed().as_secs_f64(), "n_keys": uni.keys.len(), "n_queries": uni.queries.len(),
+        "samples": [format!("{}: {}", hs[2].0, hs[2].1.iter().take(4).map(|o| o.describe(&uni)).collect::<Vec<_>>().join(" ; "))], "found": found,
+    })
+}
+
+fn replay_histories<P: PType>(rp: &Value) -> Option<Vec<crate::viol::Viol>> {
+    let uni = uni_of::<P>(&rp["spec"]);
+    let hist = ops_from_json(&rp["history"]);
+    let at = rp["at"].as_str().unwrap_or("transition");
+    let names: Vec<String> = at.strip_prefix("observer:").map(|n| vec![n.to_string()]).unwrap_or_default();
+    let observers = crate::registry::map_observers::<P>(&names);
+    let (vs, _, _) = crate::registry::run_history_checked::<PrefixMap<P, u32>>(&uni, &hist, &observers, 0);
+    Some(vs.into_iter().map(|x| x.0).collect())
+}
+
 pub fn run_engine(name: &str, spec: &Value, _idx: usize) -> Value {
     let ptype = s(spec, "ptype", "u8").to_string();
     match name {
@@ -167,6 +239,7 @@ pub fn run_engine(name: &str, spec: &Value, _idx: usize) -> Value {
         "selfpairs" => dispatch_ptype!(ptype.as_str(), run_self_engine(spec)),
         "eqpairs" => dispatch_ptype!(ptype.as_str(), run_eq_engine(spec)),
         "algebra" => dispatch_ptype!(ptype.as_str(), run_algebra_engine(spec)),
+        "histories" => dispatch_ptype!(ptype.as_str(), histories_typed(spec)),
         other => json!({"machinery_error": format!("unknown engine {other}")}),
     }
 }
@@ -237,6 +310,7 @@ pub fn replay_other(engine: &str, rp: &Value, path: &str) -> i32 {
             "pairs" => dispatch_ptype!(ptype.as_str(), replay_pairs(rp)),
             "algebra" => dispatch_ptype!(ptype.as_str(), replay_algebra(rp)),
             "eqpairs" => dispatch_ptype!(ptype.as_str(), replay_eq(rp)),
+            "histories" => dispatch_ptype!(ptype.as_str(), replay_histories(rp)),
             "selfpairs" => dispatch_ptype!(ptype.as_str(), replay_self(rp)),
             _ => None,
         }
